@@ -1,5 +1,5 @@
 import NdnProofs.Lemmas.CodecLoop
-/-! Round trip `parse (enc v) = v` for every well-formed schema without maps/markers. -/
+/-! Round trip `parse (enc v) = v` for every well-formed schema (plain, repeated and map fields; no markers). -/
 namespace Ndn.Codec
 open Ndn
 
@@ -30,6 +30,26 @@ theorem ItemsOK_rep (fs : List Schema) (k : Nat) : ∀ (items : List Item) (p : 
     have : nextPos it = k := by simp [nextPos, hr, hi]
     rw [this]
     exact ItemsOK_rep fs k r k (Nat.le_refl _) (fun x hx => hall x (List.mem_cons_of_mem _ hx))
+
+/-- items that all belong to the map field at index `k` -/
+theorem ItemsOK_mapk (fs : List Schema) (k : Nat) : ∀ (items : List Item) (p : Nat), p ≤ k →
+    (∀ it ∈ items, it.idx = k ∧ isMapS it.fld = true ∧ ItemOK fs it) → ItemsOK fs p items
+  | [], _, _, _ => trivial
+  | it :: r, p, hp, hall => by
+    obtain ⟨hi, hr, hok⟩ := hall it (List.mem_cons_self ..)
+    refine ⟨by omega, hok, ?_⟩
+    have : nextPos it = k := by simp [nextPos, hr, hi]
+    rw [this]
+    exact ItemsOK_mapk fs k r k (Nat.le_refl _) (fun x hx => hall x (List.mem_cons_of_mem _ hx))
+
+/-- storing under a key that is not in the dict yet appends the entry -/
+theorem mapSet_fresh : ∀ (l : List (Value × Value)) (k v : Value),
+    (∀ e ∈ l, keyEq e.1 k = false) → mapSet l k v = l ++ [(k, v)]
+  | [], _, _, _ => rfl
+  | (k', v') :: r, k, v, h => by
+    have h1 : keyEq k' k = false := h (k', v') (List.mem_cons_self ..)
+    simp only [mapSet, h1, Bool.false_eq_true, if_false, List.cons_append]
+    rw [mapSet_fresh r k v (fun e he => h e (List.mem_cons_of_mem _ he))]
 
 /-- what parsing one encoded element of (element-kind) schema `e` gives -/
 def ElemRT (e : Schema) (v : Value) (a : Bytes) : Prop :=
@@ -82,9 +102,10 @@ theorem rt_plain_aux (pre : List Schema) (s : Schema) (ss : List Schema) (v : Va
     have hnr : isRep s = false := by cases s <;> simp_all [isRep, isElemKind]
     have hel : elemOf s = s := by cases s <;> simp_all [elemOf, isElemKind]
     have hpr : plainOrRep s = true := by cases s <;> simp_all [plainOrRep, isElemKind]
-    refine ⟨[⟨pre.length, s, v, t, body⟩], ?_, ?_, by simp [encItems], ?_⟩
-    · exact ⟨Nat.le_refl _, ⟨hget, hpr, htyp, ht, hb, by rw [hel]; exact hleaf, by rw [hel]; exact hpv⟩, trivial⟩
-    · intro it hit; simp at hit; subst hit; simp [nextPos, hnr]
+    have hnm : isMapS s = false := by cases s <;> simp_all [isMapS, isElemKind]
+    refine ⟨[⟨pre.length, s, v, t, body, none⟩], ?_, ?_, by simp [encItems, encItem, encTail], ?_⟩
+    · exact ⟨Nat.le_refl _, ⟨hget, hpr, htyp, ht, hb, by rw [hel]; exact hleaf, by rw [hel]; exact hpv, hnm⟩, trivial⟩
+    · intro it hit; simp at hit; subst hit; simp [nextPos, hnr, hnm]
     · intro d hd tl
       simp only [List.foldl, applyItem, hnr, Bool.false_eq_true, if_false]
       rw [← hd, set_append_mid]
@@ -100,6 +121,13 @@ def ListRT (fs : List Schema) (k : Nat) (e : Schema) (xs : List Value) (a : Byte
   ∃ items, (∀ it ∈ items, it.idx = k ∧ isRep it.fld = true ∧ ItemOK fs it) ∧ encItems items = a ∧
     ∀ (acc : List Value) (l : List Value), acc[k]? = some (.list l) →
       items.foldl applyItem acc = acc.set k (.list (l ++ xs))
+
+/-- the items (key element + value element each) of one map field at index `k` -/
+def MapRT (fs : List Schema) (k : Nat) (es : List (Value × Value)) (a : Bytes) : Prop :=
+  ∃ items, (∀ it ∈ items, it.idx = k ∧ isMapS it.fld = true ∧ ItemOK fs it) ∧ encItems items = a ∧
+    ∀ (acc : List Value) (l : List (Value × Value)), acc[k]? = some (.map l) → keysDistinct es = true →
+      (∀ e ∈ l, ∀ e' ∈ es, keyEq e.1 e'.1 = false) →
+      items.foldl applyItem acc = acc.set k (.map (l ++ es))
 
 mutual
 theorem rt_elem : ∀ (e : Schema) (v : Value) (a : Bytes),
@@ -206,16 +234,64 @@ theorem rt_list : ∀ (fs : List Schema) (k : Nat) (e : Schema) (xs : List Value
       intro e; subst e; simp at hfit
     obtain ⟨t, body, rfl, htyp, ht, hb, hleaf, hpv⟩ := rt_elem e x a1 hek hw hfit.1.2 hxne ha1
     obtain ⟨items, hall, henc, hfold⟩ := rt_list fs k e xs a2 hk hek hw hfit.2 ha2
-    refine ⟨⟨k, .repeated e, x, t, body⟩ :: items, ?_, by simp [encItems, henc], ?_⟩
+    refine ⟨⟨k, .repeated e, x, t, body, none⟩ :: items, ?_, by simp [encItems, encItem, encTail, henc], ?_⟩
     · intro it hit
       simp only [List.mem_cons] at hit
       rcases hit with rfl | hit
-      · exact ⟨rfl, rfl, hk, rfl, by simpa [Schema.typ] using htyp, ht, hb, hleaf, hpv⟩
+      · exact ⟨rfl, rfl, hk, rfl, by simpa [Schema.typ] using htyp, ht, hb, hleaf, hpv, rfl⟩
       · exact hall it hit
     · intro acc l hl
       simp only [List.foldl, applyItem, isRep, if_true, hl, listOf]
       have hlt : k < acc.length := (List.getElem?_eq_some_iff.mp hl).1
       rw [hfold _ (l ++ [x]) (by simp [hlt])]
+      simp [List.set_set, List.append_assoc]
+
+theorem rt_map : ∀ (fs : List Schema) (k : Nat) (ks vs : Schema) (es : List (Value × Value)) (a : Bytes),
+    fs[k]? = some (.map ks vs) → isKeyKind ks = true → wfS ks = true → isElemKind vs = true → wfS vs = true →
+    fitsMap ks vs es = true → encMap ks vs es = .ok a → MapRT fs k es a
+  | fs, k, ks, vs, [], a, _, _, _, _, _, _, h => by
+    simp [encMap] at h; subst h
+    refine ⟨[], by simp, rfl, ?_⟩
+    intro acc l hl _ _
+    simp only [List.foldl, List.append_nil]
+    exact (set_of_getElem? hl).symm
+  | fs, k, ks, vs, (x, y) :: r, a, hk, hkk, hwk, hek, hwv, hfit, h => by
+    simp only [encMap] at h
+    obtain ⟨a1, ha1, h2⟩ := bind_ok h
+    obtain ⟨a2, ha2, h3⟩ := bind_ok h2
+    obtain ⟨a3, ha3, h4⟩ := bind_ok h3
+    simp only [pure, Except.pure] at h4; cases h4
+    simp only [fitsMap, Bool.and_eq_true] at hfit
+    have hxne : x ≠ .none := by
+      intro e; subst e; simp [notNone] at hfit
+    have hyne : y ≠ .none := by
+      intro e; subst e; simp [notNone] at hfit
+    have hkek : isElemKind ks = true := by cases ks <;> simp_all [isKeyKind, isElemKind]
+    obtain ⟨t, body, rfl, htyp, ht, hb, hleaf, hpv⟩ := rt_elem ks x a1 hkek hwk hfit.1.1.2 hxne ha1
+    obtain ⟨t2, body2, rfl, htyp2, ht2, hb2, hleaf2, hpv2⟩ := rt_elem vs y a2 hek hwv hfit.1.2 hyne ha2
+    obtain ⟨items, hall, henc, hfold⟩ := rt_map fs k ks vs r a3 hk hkk hwk hek hwv hfit.2 ha3
+    refine ⟨⟨k, .map ks vs, x, t, body, some ⟨y, t2, body2⟩⟩ :: items, ?_,
+      by simp [encItems, encItem, encTail, henc, List.append_assoc], ?_⟩
+    · intro it hit
+      simp only [List.mem_cons] at hit
+      rcases hit with rfl | hit
+      · exact ⟨rfl, rfl, hk, rfl, by simpa [Schema.typ] using htyp, ht, hb, hleaf, hpv,
+          ⟨ks, vs, rfl, htyp2, ht2, hb2, hleaf2, hpv2⟩⟩
+      · exact hall it hit
+    · intro acc l hl hdist hdisj
+      simp only [keysDistinct, Bool.and_eq_true] at hdist
+      have hfresh : mapSet l x y = l ++ [(x, y)] :=
+        mapSet_fresh l x y (fun e he => hdisj e he (x, y) (List.mem_cons_self ..))
+      simp only [List.foldl, applyItem, hl, mapOf, hfresh]
+      have hlt : k < acc.length := (List.getElem?_eq_some_iff.mp hl).1
+      have hdisj2 : ∀ e ∈ l ++ [(x, y)], ∀ e' ∈ r, keyEq e.1 e'.1 = false := by
+        intro e he e' he'
+        rcases List.mem_append.1 he with h | h
+        · exact hdisj e h e' (List.mem_cons_of_mem _ he')
+        · simp only [List.mem_singleton] at h; subst h
+          have := List.all_eq_true.1 hdist.1 e' he'
+          simpa using this
+      rw [hfold _ (l ++ [(x, y)]) (by simp [hlt]) hdist.2 hdisj2]
       simp [List.set_set, List.append_assoc]
 
 theorem rt_suffix : ∀ (pre ss : List Schema) (vs : List Value) (B : Bytes),
@@ -248,7 +324,30 @@ theorem rt_suffix : ∀ (pre ss : List Schema) (vs : List Value) (B : Bytes),
         ∀ d : List Value, d.length = pre.length → ∀ tl : List Value,
           items1.foldl applyItem (d ++ initVal s :: tl) = d ++ v :: tl := by
       cases s with
-      | map k v' => simp [wfS] at hw
+      | map ks vs' =>
+        cases v with
+        | map es =>
+          simp only [enc] at ha
+          simp only [wfS, Bool.and_eq_true] at hw
+          simp only [fits, Bool.and_eq_true] at hfit
+          obtain ⟨items1, hall, henc1, hfold1⟩ :=
+            rt_map (pre ++ .map ks vs' :: ss) pre.length ks vs' es a hget hw.1.1.1.1.1 hw.1.1.1.1.2 hw.1.1.1.2
+              hw.1.1.2 hfit.1.1 ha
+          refine ⟨items1, ItemsOK_mapk _ pre.length items1 _ (Nat.le_refl _) hall, ?_, henc1, ?_⟩
+          · intro it hit
+            obtain ⟨hi, hr, _⟩ := hall it hit
+            simp [nextPos, hr, hi]
+          · intro d hd tl
+            have := hfold1 (d ++ initVal (.map ks vs') :: tl) [] (by rw [← hd]; simp [initVal]) hfit.1.2
+              (by intro e he; simp at he)
+            rw [this, ← hd, set_append_mid]; simp
+        | none => simp [fits] at hfit
+        | uint _ => simp [fits] at hfit
+        | bool => simp [fits] at hfit
+        | bytes _ => simp [fits] at hfit
+        | name _ => simp [fits] at hfit
+        | model _ => simp [fits] at hfit
+        | list _ => simp [fits] at hfit
       | marker => simp [wfS] at hw
       | repeated e =>
         cases v with
